@@ -238,11 +238,9 @@ macro_rules! hm {
 
 hm!(c01_q_btmap_m1, p_map_c01::<BTreeMap<KeyT, u8>>(1, true));
 hm!(c01_t_btmap_m2, p_map_c01::<BTreeMap<KeyT, u8>>(2, true));
-hm!(c01_t_btmap_m3, p_map_c01::<BTreeMap<KeyT, u8>>(3, true));
 hm!(c12_t_btmap_dup_m2, p_map_c01::<BTreeMap<KeyT, u8>>(2, false));
 hm!(c06_q_btmap_m1, p_map_c02::<BTreeMap<KeyT, u8>>(1));
 hm!(c06_t_btmap_m2, p_map_c02::<BTreeMap<KeyT, u8>>(2));
-hm!(c06_t_btmap_m3, p_map_c02::<BTreeMap<KeyT, u8>>(3));
 hm!(c02_t_btmap_m2, p_map_c02::<BTreeMap<KeyT, u8>>(2));
 
 // ---- BTreeSet<u8>: insert log = payload elements in order
@@ -284,7 +282,6 @@ fn p_set(n: usize) {
 }
 hm!(c06_q_btset_s1, p_set(1));
 hm!(c06_t_btset_s2, p_set(2));
-hm!(c06_t_btset_s3, p_set(3));
 
 // ---- C15 for map targets: member order does not change the outcome
 #[cfg(kani)]
@@ -348,7 +345,6 @@ fn p_map_c15<M: MapLike + deserr::Deserr<Rec<M_LOG>>>(n: usize) {
     core::mem::forget(r2);
 }
 hm!(c15_t_btmap_m2, p_map_c15::<BTreeMap<KeyT, u8>>(2));
-hm!(c15_t_btmap_m3, p_map_c15::<BTreeMap<KeyT, u8>>(3));
 
 
 // ---- HashMap<KeyT, u8>: same obligations; `insert` -> call log, `RandomState::new` -> zeroed
